@@ -1,7 +1,14 @@
 import TantivyModel.Proofs.GrammarFold
 import TantivyModel.Proofs.GrammarSimplify
+import TantivyModel.Proofs.GrammarFoldNeg
 import TantivyModel.Proofs.GrammarChars
+import TantivyModel.Proofs.GrammarPhrase
 import TantivyModel.Proofs.GrammarCharsPrint
+import TantivyModel.Proofs.GrammarCharsPrintList
+import TantivyModel.Proofs.GrammarCharsNested
+import TantivyModel.Proofs.GrammarCharsBoost
+import TantivyModel.Proofs.GrammarCharsText
+import TantivyModel.Proofs.GrammarFoldSafe
 import TantivyModel.Model.Grammar.Agree
 /-!
 # C16 — The query parser is total and implements its documented grammar
@@ -88,6 +95,33 @@ example (a b c d e f : Bool) :
 
 example : (lenientFold ((chainFrom none (.leaf 1 : Ast Nat) [(.and, .leaf 2), (.or, .leaf 3)]).map rawOf)).1
     = .clause [(some .should, .clause [(some .must, .leaf 1), (some .must, .leaf 2)]), (some .should, .leaf 3)] := rfl
+
+/-- **AND/OR chains whose operands may carry `-`** (covers the operand bound to AND, e.g.
+    `a OR -b AND c`, where no "should-not" may be synthesised). For every operand list
+    `[-]a₀ op₁ [-]a₁ … opₙ [-]aₙ` the folded tree means the OR over the maximal AND-runs, where a
+    run holds iff it has an unmarked operand, all its unmarked operands hold and none of its `-`
+    operands holds; in particular a lone `-x` between ORs (the synthesised should-not) and a run
+    of only `-` operands contribute nothing. `C16_precedence` is the case without markers. -/
+theorem C16_precedence_markers (m : Mode) (res : L → LAst T) (v : T → Bool) (n0 : Bool) (a0 : Ast L)
+    (rest : List (BinOp × Bool × Ast L))
+    (hd0 : isDead (toLogical m res a0) = false)
+    (hdr : ∀ x ∈ rest, isDead (toLogical m res x.2.2) = false) :
+    semAst m res v (lenientFold ((chainFromN none n0 a0 rest).map rawOf)).1
+      = runsN (!n0) (litv n0 (semAst m res v a0))
+          (rest.map fun x => (x.1, x.2.1, semAst m res v x.2.2)) := by
+  rw [lenientFold_map_rawOf _ (by rfl)]
+  exact precedenceN_sem m res v n0 a0 rest hd0 hdr
+
+/-- `a OR -b AND c` = `a ∨ (¬b ∧ c)`, `a OR -b` = `a`, `-a AND -b` = nothing -/
+example (a b c : Bool) :
+    runsN (!false) (litv false a) [(.or, true, b), (.and, false, c)] = (a || (!b && c))
+    ∧ runsN (!false) (litv false a) [(.or, true, b)] = a
+    ∧ runsN (!true) (litv true a) [(.and, true, b)] = false := by
+  cases a <;> cases b <;> cases c <;> decide
+
+/-- the operand bound to AND keeps its MUST_NOT (no should-not is synthesised for it) -/
+example : (lenientFold ((chainFromN none false (.leaf 1 : Ast Nat) [(.or, true, .leaf 2), (.and, false, .leaf 3)]).map rawOf)).1
+    = .clause [(some .should, .leaf 1), (some .should, .clause [(some .mustNot, .leaf 2), (some .must, .leaf 3)])] := rfl
 
 /-- **`+` / `-` markers.** A list of clauses with optional markers and no operators means: every
     `+` clause matches, no `-` clause matches and, when no clause is required, at least one of the
@@ -264,8 +298,16 @@ theorem C16_strict_panic_witness :
    ASCII letters and digits that is not a keyword (`C16_print_parse_leaf`, through step lemmas for
    each matcher: `wordRest`, `word`, `fieldName`, `range`, `set`, `exists_`, `regex`, `simpleTerm`,
    `plainLiteral`, `pLeaf`, `pOccurLeaf`, `pAst`, for every fuel ≥ 3); (2) the documented concrete
-   forms below as kernel-checked evaluations. Groups by induction need the same step lemmas with a
-   non-empty remainder (`w ++ ' ' :: rest`) and are not done. -/
+   forms below as kernel-checked evaluations; (3) operand lists of plain words with markers and
+   AND/OR for every layout choice (`C16_print_parse_operands`, by induction). (4) the well-formed
+   fragment `WFOpd` (`C16_print_parse_nested`): parenthesised lists nested to any depth whose operands
+   are words, quoted phrases of any characters (printed with escapes) with slop / prefix star, field
+   prefixes, bracketed and elastic ranges, sets, `*`, `name:*`, `NOT x`.
+   (5) boosts on words, phrases, parenthesised lists, bracketed ranges and sets, and `name:( … )`
+   groups (`C16_print_parse_boosted`). (6) compositions with the fold-layer theorems: from the text
+   of an AND/OR chain resp. a marker list to its meaning (`C16_text_precedence`, `C16_text_markers`).
+   Still open in the ∀ form: boosts after elastic ranges, `*`, `name:*` and `NOT x`, escapes inside
+   unquoted words, single-quoted phrases, regex leaves, negative numbers, `*` as a range bound, blanks inside elastic ranges, unicode blanks as separators. -/
 /-- **print/parse at leaf level, for all words**: the strict parser (with or without the guard)
     reads a word of ASCII letters and digits that is not `OR`/`AND`/`NOT`/`IN` as the unfielded,
     unquoted literal with exactly that text -/
@@ -274,6 +316,263 @@ theorem C16_print_parse_leaf (guard : Bool) (w : Str) (h : PlainWord w) :
   parseStrictWith_plain guard w h
 
 example : PlainWord ['a', 'b', 'c'] := plainWord_abc
+
+/-- **print/parse for operand lists, for every layout choice of the printer**: the text
+    `[+|-]w₀ ( [AND |OR ] [+|-]wᵢ )*` of plain words — any number of leading blanks, at least one
+    blank (any number) before each further operand, any number of blanks after an operator keyword,
+    any number of trailing blanks — is read by the strict parser (with or without the guard) as the
+    fold of exactly those items (`strictAst` = the fold of `C16_precedence` / `C16_markers` /
+    `C16_precedence_markers`), followed by `rewrite_ast`. By induction over the operand list, on
+    step lemmas for each matcher with a remainder (`Proofs/GrammarCharsRem.lean`). -/
+theorem C16_print_parse_operands (guard : Bool) (lead : Nat) (occ : Option Occur) (w : Str)
+    (more : List PItem) (k : Nat) (hw : PlainWord w)
+    (hm : ∀ it ∈ more, ∃ wi, it.opd = wordOpd wi ∧ PlainWord wi) :
+    ∃ t, strictAst (normOcc occ, leafOf w) (more.map itemOf) = .ok t
+      ∧ parseStrictWith guard (printList lead occ (wordOpd w) more k []) = .tree (rewrite t) := by
+  refine ⟨listTree occ (wordOpd w) more, listTree_eq occ (wordOpd w) more, ?_⟩
+  refine parseStrictWith_printList guard lead occ (wordOpd w) more k (.word w hw) ?_
+  intro it hi
+  obtain ⟨wi, he, hwi⟩ := hm it hi
+  rw [he]
+  exact .word wi hwi
+
+/-- ` a   AND b OR  -c ` is such a text -/
+example : printList 1 none (wordOpd ['a'])
+      [⟨some .and, none, wordOpd ['b'], 2, 0⟩, ⟨some .or, some .mustNot, wordOpd ['c'], 0, 1⟩] 1 []
+    = [' ', 'a', ' ', ' ', ' ', 'A', 'N', 'D', ' ', 'b', ' ', 'O', 'R', ' ', ' ', '-', 'c', ' '] := by decide
+example : PlainWord ['b'] ∧ PlainWord ['c'] := ⟨⟨by simp, by decide, by decide⟩, ⟨by simp, by decide, by decide⟩⟩
+
+/-- **print/parse for the nested fragment** (`WFOpd`: plain words, double-quoted phrases without escapes — any characters but `"` and `\`, optionally followed by a slop `~digits` (below 2^32) or the prefix star —, double-quoted phrases of ANY characters printed with `\"` and `\\` escapes (`escQuoted`), either of them with a field prefix `name:` (the name a plain word), bracketed ranges `[a TO b]`, `{a TO b}`, `[a TO b}`, `{a TO b]` with bounds of letters and digits (also with a field prefix), elastic ranges `>=a`, `<=a`, `<a`, `>a` (also with a field prefix), `*` and `name:*`, sets `IN [a b c]` of plain words with any blanks after `IN`, after `[` and between the elements (also with a field prefix), `NOT x` of a well-formed operand, and parenthesised operand lists
+    of well-formed operands, to any depth, each list with `+`/`-` markers, `AND `/`OR ` and any
+    layout): the strict parser reads the printed text as the tree the printer's structure denotes —
+    at every level the fold (`strictAst`, see `C16_listTree_is_fold`) of the operands' trees —
+    followed by `rewrite_ast`. By induction on the well-formedness derivation; a parenthesised list
+    is handled by the same list theorem with `)` as the remaining input. -/
+theorem C16_print_parse_nested (guard : Bool) (lead : Nat) (occ : Option Occur) (o : Opd)
+    (more : List PItem) (k : Nat) (ho : WFOpd o) (hm : ∀ it ∈ more, WFOpd it.opd) :
+    parseStrictWith guard (printList lead occ o more k []) = .tree (rewrite (listTree occ o more)) :=
+  parseStrictWith_printList guard lead occ o more k ho hm
+
+/-- **print/parse with boosts**: the items of a list (at the top level and inside parenthesised
+    lists, to any depth) may carry a boost `^digits[.digits]` when the boosted operand is a plain
+    word, a quoted phrase (any characters, optional slop / prefix star), either with a field prefix,
+    a parenthesised list, a bracketed range or a set, the latter two also with a field prefix
+    (`WFB true`); every other item is a well-formed operand of `C16_print_parse_nested`,
+    a parenthesised list of such items, `name:( … )` of such items (read as the list's tree with
+    `set_default_field name`; it may be boosted too), or `NOT` of an unboosted one (`WFB false`). The strict parser
+    reads the printed text as `rewrite_ast` of the tree the structure denotes, in which a boosted
+    operand's tree is wrapped by `applyBoost` with the value the grammar computes from the decimal
+    text (`BoostLit.val`: a boost of exactly one leaves the tree unchanged). -/
+theorem C16_print_parse_boosted (guard : Bool) (lead : Nat) (occ : Option Occur) (o : Opd)
+    (more : List PItem) (k : Nat) (ho : ∃ b, WFB b o) (hm : ∀ it ∈ more, ∃ b, WFB b it.opd) :
+    parseStrictWith guard (printList lead occ o more k []) = .tree (rewrite (listTree occ o more)) :=
+  parseStrictWith_printList_boost guard lead occ o more k ho hm
+
+/-- `(a)^2.5 [a TO b]^1` is such a text: the first item is the group boosted by 2.5 (stored as the
+    decimal 25 with one fraction digit), the boost of exactly one on the range disappears -/
+example :
+    let g1 := boostOpd (groupOpd 0 none (wordOpd ['a']) [] 0) ⟨['2'], ['5']⟩
+    let r1 := boostOpd (rangeOpd true true ['a'] ['b']) ⟨['1'], []⟩
+    printList 0 none g1 [⟨none, none, r1, 0, 0⟩] 0 []
+      = ['(', 'a', ')', '^', '2', '.', '5', ' ', '[', 'a', ' ', 'T', 'O', ' ', 'b', ']', '^', '1']
+    ∧ g1.leaf = .boost (listTree none (wordOpd ['a']) []) (BoostText.code ⟨25, 1⟩)
+    ∧ r1.leaf = (rangeOpd true true ['a'] ['b']).leaf
+    ∧ WFB true g1 ∧ WFB true r1 ∧ WFB true (boostOpd (wordOpd ['a']) ⟨['2'], []⟩)
+    ∧ (boostOpd (wordOpd ['a']) ⟨['2'], []⟩).text = ['a', '^', '2'] := by
+  refine ⟨by decide, rfl, rfl, ?_, ?_, .boostWord _ ⟨by simp, by decide, by decide⟩ _ ⟨by simp, by decide, by simp⟩, by decide⟩
+  · exact .boostGroup 0 none _ [] 0 false (fun _ => false) (.base _ (.word _ ⟨by simp, by decide, by decide⟩))
+      (by intro it hi; cases hi) _ ⟨by simp, by decide, by decide⟩
+  · exact .boostRange _ _ _ _ ⟨by simp, by decide⟩ ⟨by simp, by decide⟩ _ ⟨by simp, by decide, by simp⟩
+
+/-- `t:(a -"b c")` is a well-formed item: the list's tree with the default field `t` on both leaves -/
+example :
+    let fgp := fieldGroupOpd ['t'] 0 none (wordOpd ['a']) [⟨none, some .mustNot, phraseEscOpd ['b', ' ', 'c'] .none, 0, 0⟩] 0
+    fgp.text = ['t', ':', '(', 'a', ' ', '-', '"', 'b', ' ', 'c', '"', ')']
+    ∧ fgp.leaf = .clause [(none, .leaf (.literal (some ['t']) ['a'] .none 0 false)),
+        (some .mustNot, .leaf (.literal (some ['t']) ['b', ' ', 'c'] .double 0 false))]
+    ∧ WFB false fgp := by
+  refine ⟨by decide, rfl, ?_⟩
+  refine .fieldGroup _ 0 none _ _ 0 false (fun _ => false) ⟨by simp, by decide, by decide⟩
+    (.base _ (.word _ ⟨by simp, by decide, by decide⟩)) ?_
+  intro it hi
+  simp only [List.mem_singleton] at hi
+  subst hi
+  exact .base _ (.phraseEsc _ _ trivial)
+
+/-- **from the text to the documents**: for every layout of `x₀ op₁ x₁ … opₙ xₙ` (`AND`/`OR`
+    keywords, no markers, every `xᵢ` an item of `C16_print_parse_boosted`, `n ≥ 1`) the strict parser
+    accepts the text, and the tree it returns means the OR over the maximal AND-runs of the
+    operands' meanings — whenever the operands resolve (`isDead … = false`) and `rewrite_ast` is
+    meaning-preserving on the operands' own trees (`safeWith`, decidable and true for every leaf, see
+    `C16_rewrite_preserves_sem`; for the folded chain itself it is proved, `C16_chain_rewrite_safe`). -/
+theorem C16_text_precedence {T : Type} (guard : Bool) (lead k : Nat) (o : Opd) (ops : List (BinOp × Opd × Nat × Nat))
+    (hne : ops ≠ []) (ho : ∃ b, WFB b o) (hm : ∀ x ∈ ops, ∃ b, WFB b x.2.1)
+    (m : Mode) (res : CLeaf → LAst T) (v : T → Bool)
+    (hd0 : isDead (toLogical m res o.leaf) = false)
+    (hdr : ∀ x ∈ ops, isDead (toLogical m res x.2.1.leaf) = false)
+    (hs0 : safeWith m false o.leaf = true)
+    (hsr : ∀ x ∈ ops, safeWith m false x.2.1.leaf = true) :
+    ∃ t, parseStrictWith guard (printList lead none o (opItems ops) k []) = .tree t
+      ∧ semAst m res v t
+        = orOfAnds (semAst m res v o.leaf) (ops.map fun x => (x.1, semAst m res v x.2.1.leaf)) := by
+  have hsafe : safeWith m false (listTree none o (opItems ops)) = true := by
+    rw [listTree_chain o ops hne, lenientFold_map_rawOf _ (by rfl)]
+    exact chain_safe m res v o.leaf _ hs0 (by
+      intro y hy
+      simp only [List.mem_map] at hy
+      obtain ⟨x, hx, rfl⟩ := hy
+      exact hsr x hx)
+  refine ⟨rewrite (listTree none o (opItems ops)), ?_, ?_⟩
+  · refine C16_print_parse_boosted guard lead none o (opItems ops) k ho ?_
+    intro it hi
+    simp only [opItems, List.mem_map] at hi
+    obtain ⟨x, hx, rfl⟩ := hi
+    exact hm x hx
+  · rw [C16_rewrite_preserves_sem m res v _ hsafe, listTree_chain o ops hne]
+    have := C16_precedence m res v o.leaf (ops.map fun x => (x.1, x.2.1.leaf)) hd0 (by
+      intro y hy
+      simp only [List.mem_map] at hy
+      obtain ⟨x, hx, rfl⟩ := hy
+      exact hdr x hx)
+    simpa [List.map_map, Function.comp_def] using this
+
+/-- **from the text to the documents, marker lists**: for every layout of `[+|-]x₀ [+|-]x₁ … [+|-]xₙ`
+    (juxtaposed, `n ≥ 1`, every `xᵢ` an item of `C16_print_parse_boosted` whose tree is a leaf: a
+    word, phrase, range, set, `*`, `name:*`, with or without a field prefix) the strict parser accepts
+    the text and the tree it returns means: every `+` operand holds, no `-` operand holds, and — when
+    there is no `+` operand — some unmarked operand holds (default mode; all unmarked operands in
+    conjunction mode): `boolSem` with the mode's default occur for the unmarked ones. -/
+theorem C16_text_markers {T : Type} (guard : Bool) (lead k : Nat) (occ : Option Occur) (o : Opd)
+    (ms : List (Option Occur × Opd × Nat)) (hne : ms ≠ [])
+    (ho : ∃ b, WFB b o) (hm : ∀ x ∈ ms, ∃ b, WFB b x.2.1)
+    (hl : ∀ e ∈ markEntries occ o ms, ∃ l, e.2 = .leaf l)
+    (m : Mode) (res : CLeaf → LAst T) (v : T → Bool)
+    (hd : ∀ e ∈ markEntries occ o ms, isDead (toLogical m res e.2) = false) :
+    ∃ t, parseStrictWith guard (printList lead occ o (markItems ms) k []) = .tree t
+      ∧ semAst m res v t
+        = boolSem ((markEntries occ o ms).map fun e => (e.1.getD m.occ, semAst m res v e.2)) := by
+  have hsafe : safeWith m false (listTree occ o (markItems ms)) = true := by
+    rw [listTree_marks occ o ms hne, lenientFold_map_rawOf _ (by simp [markEntries, marksItems, earlyOperand])]
+    exact marks_safe m _ hl
+  refine ⟨rewrite (listTree occ o (markItems ms)), ?_, ?_⟩
+  · refine C16_print_parse_boosted guard lead occ o (markItems ms) k ho ?_
+    intro it hi
+    simp only [markItems, List.mem_map] at hi
+    obtain ⟨x, hx, rfl⟩ := hi
+    exact hm x hx
+  · rw [C16_rewrite_preserves_sem m res v _ hsafe, listTree_marks occ o ms hne]
+    exact C16_markers m res v (markEntries occ o ms) hd
+
+/-- `+a  -"b c" t:d`: the hypotheses hold -/
+example :
+    let ms : List (Option Occur × Opd × Nat) := [(some .mustNot, phraseEscOpd ['b', ' ', 'c'] .none, 1), (none, fieldWordOpd ['t'] ['d'], 0)]
+    printList 0 (some .must) (wordOpd ['a']) (markItems ms) 0 []
+      = ['+', 'a', ' ', ' ', '-', '"', 'b', ' ', 'c', '"', ' ', 't', ':', 'd']
+    ∧ (∀ e ∈ markEntries (some .must) (wordOpd ['a']) ms, ∃ l, e.2 = .leaf l)
+    ∧ (markEntries (some .must) (wordOpd ['a']) ms).map (·.1) = [some .must, some .mustNot, none] := by
+  refine ⟨by decide, ?_, rfl⟩
+  intro e he
+  simp only [markEntries, List.map_cons, List.map_nil, List.mem_cons, List.mem_nil_iff, or_false] at he
+  rcases he with rfl | rfl | rfl <;> exact ⟨_, rfl⟩
+
+/-- **`rewrite_ast` is safe on folded chains**: the tree folded from `a₀ op₁ a₁ … opₙ aₙ` satisfies
+    the side condition of `C16_rewrite_preserves_sem` as soon as the operands' own trees do (every
+    entry of the folded tree carries an explicit occur, so nothing is unwrapped with a changed occur) -/
+theorem C16_chain_rewrite_safe [DecidableEq L] (m : Mode) (res : L → LAst T) (v : T → Bool) (a0 : Ast L)
+    (rest : List (BinOp × Ast L)) (h0 : safeWith m false a0 = true)
+    (hr : ∀ x ∈ rest, safeWith m false x.2 = true) :
+    safeWith m false (lenientFold ((chainFrom none a0 rest).map rawOf)).1 = true := by
+  rw [lenientFold_map_rawOf _ (by rfl)]
+  exact chain_safe m res v a0 rest h0 hr
+
+example : safeWith .orDefault false
+    (lenientFold ((chainFrom none (.leaf 1 : Ast Nat) [(.and, .leaf 2), (.or, .leaf 3)]).map rawOf)).1 = true := rfl
+
+/-- `a AND b  OR c`: the hypotheses hold (words resolve, `rewrite_ast` is safe on the leaves) -/
+example :
+    let o := wordOpd ['a']
+    let ops : List (BinOp × Opd × Nat × Nat) := [(.and, wordOpd ['b'], 0, 0), (.or, wordOpd ['c'], 1, 0)]
+    printList 0 none o (opItems ops) 0 [] = ['a', ' ', 'A', 'N', 'D', ' ', 'b', ' ', ' ', 'O', 'R', ' ', 'c']
+    ∧ safeWith .orDefault false o.leaf = true
+    ∧ isDead (toLogical .orDefault LAst.leaf o.leaf) = false := ⟨by decide, rfl, rfl⟩
+
+/-- the tree of a printed list is the strict fold of the operands' trees (the subject of the
+    fold-layer theorems) -/
+theorem C16_listTree_is_fold (occ : Option Occur) (o : Opd) (more : List PItem) :
+    strictAst (normOcc occ, o.leaf) (more.map itemOf) = .ok (listTree occ o more) :=
+  listTree_eq occ o more
+
+/-- `a ( b OR -c)  AND d` is such a text, with the tree `(?a ?(+(?b ?(-c)) +d))` before `rewrite_ast` -/
+example :
+    let grp := groupOpd 1 none (wordOpd ['b']) [⟨some .or, some .mustNot, wordOpd ['c'], 0, 0⟩] 0
+    printList 0 none (wordOpd ['a']) [⟨none, none, grp, 0, 0⟩, ⟨some .and, none, wordOpd ['d'], 1, 0⟩] 0 []
+      = ['a', ' ', '(', ' ', 'b', ' ', 'O', 'R', ' ', '-', 'c', ')', ' ', ' ', 'A', 'N', 'D', ' ', 'd']
+    ∧ WFOpd grp := by
+  refine ⟨by decide, ?_⟩
+  refine .group 1 none _ _ 0 (.word _ ⟨by simp, by decide, by decide⟩) ?_
+  intro it hi
+  simp only [List.mem_singleton] at hi
+  subst hi
+  exact .word _ ⟨by simp, by decide, by decide⟩
+
+/-- `"a (b"` is a well-formed phrase operand (its body may contain blanks and special characters) -/
+example : (phraseOpd ['a', ' ', '(', 'b']).text = ['"', 'a', ' ', '(', 'b', '"']
+    ∧ WFOpd (phraseOpd ['a', ' ', '(', 'b']) :=
+  ⟨by decide, .phrase _ (by simp [PhraseBody])⟩
+
+/-- `t:a` and `t:"a b"` are well-formed operands, read as literals with the field set -/
+example : (fieldWordOpd ['t'] ['a']).text = ['t', ':', 'a']
+    ∧ (fieldWordOpd ['t'] ['a']).leaf = .leaf (.literal (some ['t']) ['a'] .none 0 false)
+    ∧ WFOpd (fieldWordOpd ['t'] ['a'])
+    ∧ WFOpd (fieldPhraseOpd ['t'] ['a', ' ', 'b']) :=
+  ⟨by decide, rfl, .fieldWord _ _ ⟨by simp, by decide, by decide⟩ ⟨by simp, by decide, by decide⟩,
+    .fieldPhrase _ _ ⟨by simp, by decide, by decide⟩ (by simp [PhraseBody])⟩
+
+/-- `"a b"~12` and `t:"a"*` are well-formed operands with slop 12 resp. the prefix flag -/
+example : (phraseSfxOpd ['a', ' ', 'b'] (.slop ['1', '2'])).text = ['"', 'a', ' ', 'b', '"', '~', '1', '2']
+    ∧ (phraseSfxOpd ['a', ' ', 'b'] (.slop ['1', '2'])).leaf = .leaf (.literal none ['a', ' ', 'b'] .double 12 false)
+    ∧ WFOpd (phraseSfxOpd ['a', ' ', 'b'] (.slop ['1', '2']))
+    ∧ (fieldPhraseSfxOpd ['t'] ['a'] .pfx).leaf = .leaf (.literal (some ['t']) ['a'] .double 0 true)
+    ∧ WFOpd (fieldPhraseSfxOpd ['t'] ['a'] .pfx) :=
+  ⟨by decide, rfl, .phraseSfx _ _ (by simp [PhraseBody]) ⟨by simp, by decide, by decide⟩, rfl,
+    .fieldPhraseSfx _ _ _ ⟨by simp, by decide, by decide⟩ (by simp [PhraseBody]) trivial⟩
+
+/-- `t:[a TO b}` is a well-formed operand: the range with an inclusive lower and an exclusive upper bound -/
+example : (fieldRangeOpd ['t'] true false ['a'] ['b']).text = ['t', ':', '[', 'a', ' ', 'T', 'O', ' ', 'b', '}']
+    ∧ (fieldRangeOpd ['t'] true false ['a'] ['b']).leaf = .leaf (.range (some ['t']) (.incl ['a']) (.excl ['b']))
+    ∧ WFOpd (fieldRangeOpd ['t'] true false ['a'] ['b']) :=
+  ⟨by decide, rfl, .fieldRange _ _ _ _ _ ⟨by simp, by decide, by decide⟩ ⟨by simp, by decide⟩ ⟨by simp, by decide⟩⟩
+
+/-- `t:IN  [a  b]` is a well-formed operand: the set of `a` and `b` on field `t` -/
+example : (fieldSetOpd ['t'] 1 0 ['a'] [(1, ['b'])]).text = ['t', ':', 'I', 'N', ' ', ' ', '[', 'a', ' ', ' ', 'b', ']']
+    ∧ (fieldSetOpd ['t'] 1 0 ['a'] [(1, ['b'])]).leaf = .leaf (.set (some ['t']) [['a'], ['b']])
+    ∧ WFOpd (fieldSetOpd ['t'] 1 0 ['a'] [(1, ['b'])]) := by
+  refine ⟨by decide, rfl, .fieldSet _ _ _ _ _ ⟨by simp, by decide, by decide⟩ ⟨⟨by simp, by decide, by decide⟩, ?_⟩⟩
+  intro e he
+  simp only [List.mem_singleton] at he
+  subst he
+  exact ⟨by simp, by decide, by decide⟩
+
+/-- `"a\"\\"` (the phrase body `a"\` printed with escapes) is a well-formed operand that reads back as that body -/
+example : (phraseEscOpd ['a', '"', '\\'] .none).text = ['"', 'a', '\\', '"', '\\', '\\', '"']
+    ∧ (phraseEscOpd ['a', '"', '\\'] .none).leaf = .leaf (.literal none ['a', '"', '\\'] .double 0 false)
+    ∧ WFOpd (phraseEscOpd ['a', '"', '\\'] .none) :=
+  ⟨by decide, rfl, .phraseEsc _ _ trivial⟩
+
+/-- `t:>=5`, `*` and `t:*` are well-formed operands -/
+example : (fieldElasticOpd ['t'] 0 ['5']).text = ['t', ':', '>', '=', '5']
+    ∧ (fieldElasticOpd ['t'] 0 ['5']).leaf = .leaf (.range (some ['t']) (.incl ['5']) .unbounded)
+    ∧ WFOpd (fieldElasticOpd ['t'] 0 ['5']) ∧ WFOpd allOpd ∧ WFOpd (existsOpd ['t'])
+    ∧ (existsOpd ['t']).leaf = .leaf (.exists ['t']) :=
+  ⟨by decide, rfl, .fieldElastic _ _ _ ⟨by simp, by decide, by decide⟩ ⟨by simp, by decide⟩, .all,
+    .existsField _ ⟨by simp, by decide, by decide⟩, rfl⟩
+
+/-- `NOT  t:a` is a well-formed operand, read as the clause `(-t:a)` -/
+example : (notOpd 1 (fieldWordOpd ['t'] ['a'])).text = ['N', 'O', 'T', ' ', ' ', 't', ':', 'a']
+    ∧ (notOpd 1 (fieldWordOpd ['t'] ['a'])).leaf
+        = .clause [(some .mustNot, .leaf (.literal (some ['t']) ['a'] .none 0 false))]
+    ∧ WFOpd (notOpd 1 (fieldWordOpd ['t'] ['a'])) :=
+  ⟨by decide, rfl, .not _ _ (.fieldWord _ _ ⟨by simp, by decide, by decide⟩ ⟨by simp, by decide, by decide⟩)⟩
 
 /-- `C16_print_parse_partial`: the documented forms parse to the documented trees -/
 theorem C16_print_parse_partial :
@@ -413,5 +712,66 @@ theorem C16_lenient_divergence_witnesses :
 
 
 end Chars
+
+/-! ## phrase literals: the compile step (`Model/Grammar/Phrase.lean`)
+
+`generate_literals_for_str` numbers the phrase terms by the analyzer's `token.position`. The harness
+compares the offsets in the real compiled query with `Phrase.compile (analyse …)` on every run. -/
+section Phrase
+open TantivyModel.Grammar.Phrase
+variable {W : Type}
+
+/-- **phrase offsets are the analyzer's positions**: the terms compiled from a quoted literal are
+    exactly the kept words, each with its index in the literal as offset (a dropped token leaves
+    its gap) -/
+theorem C16_phrase_offsets_are_positions (keep : W → Bool) (ws : List W) (o : Nat) (w : W) :
+    (o, w) ∈ compile (analyse keep ws) ↔ (ws[o]? = some w ∧ keep w = true) := by
+  rw [compile_eq]
+  unfold analyse
+  rw [mem_analyseFrom]
+  constructor
+  · rintro ⟨i, rfl, h1, h2⟩
+    exact ⟨by simpa using h1, h2⟩
+  · rintro ⟨h1, h2⟩
+    exact ⟨o, by omega, h1, h2⟩
+
+/-- **the gap is preserved**: a document that contains the literal's words verbatim (whatever
+    precedes and follows, whichever words the analyzer drops) matches the compiled phrase -/
+theorem C16_phrase_keeps_gap [DecidableEq W] (keep : W → Bool) (pre ws post : List W)
+    (h : analyse keep ws ≠ []) :
+    phraseMatch (compile (analyse keep ws)) (analyse keep (pre ++ ws ++ post)) = true := by
+  rw [compile_eq]
+  cases hA : analyse keep ws with
+  | nil => exact absurd hA h
+  | cons t rest =>
+    obtain ⟨o0, w0⟩ := t
+    have hd : (pre.length + o0, w0) ∈ analyse keep (pre ++ ws ++ post) :=
+      mem_doc_of_mem_phrase keep pre ws post o0 w0 (by rw [hA]; simp)
+    unfold phraseMatch
+    simp only [List.any_eq_true]
+    refine ⟨(pre.length + o0, w0), hd, ?_⟩
+    simp only [decide_true, Bool.true_and, List.all_eq_true]
+    intro t ht
+    obtain ⟨a, b⟩ := t
+    have hm := mem_doc_of_mem_phrase keep pre ws post a b (by rw [hA]; exact List.mem_cons_of_mem _ ht)
+    have hle := analyseFrom_head_le keep 0 ws o0 w0 rest hA (a, b) ht
+    have e : pre.length + o0 + (a - o0) = pre.length + a := by simp only at hle; omega
+    simp only [e]
+    exact List.contains_iff_mem.mpr hm
+
+/-- numbering the terms by their index in the surviving token list (the seeded change C16-C)
+    loses the gap: `quick the fox` (0 = a stop word) no longer matches its own text and matches
+    `quick fox` instead -/
+theorem C16_phrase_by_index_loses_gap :
+    let keep : Nat → Bool := fun w => w != 0
+    phraseMatch (compile (analyse keep [1, 0, 2])) (analyse keep [1, 0, 2]) = true
+    ∧ phraseMatch (compileByIndex (analyse keep [1, 0, 2])) (analyse keep [1, 0, 2]) = false
+    ∧ phraseMatch (compileByIndex (analyse keep [1, 0, 2])) (analyse keep [1, 2]) = true
+    ∧ phraseMatch (compile (analyse keep [1, 0, 2])) (analyse keep [1, 2]) = false := by
+  decide
+
+example : analyse (fun w : Nat => w != 0) [1, 0, 2] ≠ [] := by decide
+
+end Phrase
 
 end TantivyModel.C16
